@@ -17,6 +17,7 @@ Template directives (lines whose first non-blank characters are `//@`):
     //@start{ ... //@}                      ghost text at the start of the body
     //@loop <n>{ ... //@}                   clauses between the n-th loop header and its body
     //@loopbody <n>{ ... //@}               ghost text at the start of the body of the n-th loop
+    //@loopend <n>{ ... //@}                ghost text at the end of the body of the n-th loop (order-insensitive placement)
     //@before <k> <anchor>{ ... //@}        ghost text before the statement containing the k-th
     //@after <k> <anchor>{ ... //@}         occurrence of <anchor> (resp. after it)
     //@closure <k> <orig header> => <typed header>{ ... //@}   typed closure header + clauses
@@ -672,6 +673,7 @@ class FnSpec:
         self.loops = {}
         self.loopiters = {}
         self.loopbodies = {}
+        self.loopends = {}
         self.anchors = []   # (where, k, anchor, text)
         self.closures = []  # (k, orig, new, text)
         self.rules = set()
@@ -841,6 +843,13 @@ def apply_fn(text, spec, ctx, assoc_types=None, canary=False):
         if n < 1 or n > len(loops):
             raise ExtractError('fn %s: loopbody %d requested, function has %d loops' % (spec.name, n, len(loops)))
         ins.append((loops[n - 1][1] + 1, gtext))
+    if spec.loopends:
+        ltoks = L.code_toks(text)
+        for n, gtext in spec.loopends.items():
+            if n < 1 or n > len(loops):
+                raise ExtractError('fn %s: loopend %d requested, function has %d loops' % (spec.name, n, len(loops)))
+            oi = [i for i, t in enumerate(ltoks) if t.s == loops[n - 1][1]][0]
+            ins.append((ltoks[L.match_close(ltoks, oi)].s, gtext))
     unannotated = [i + 1 for i in range(len(loops)) if (i + 1) not in spec.loops]
     body = L.fn_body_brace(text)
     if spec.start:
@@ -924,6 +933,10 @@ def parse_fn_directives(lines, i, spec):
             _, n, nm = d.split()
             spec.loopiters[int(n)] = nm
             i += 1
+        elif d.startswith('loopend '):
+            m = re.match(r'loopend (\d+)\{$', d)
+            t, i = parse_block(lines, i)
+            spec.loopends[int(m.group(1))] = t
         elif d.startswith('loopbody '):
             m = re.match(r'loopbody (\d+)\{$', d)
             t, i = parse_block(lines, i)
